@@ -132,6 +132,43 @@ def search_case(draw, tier="quick"):
     return case
 
 
+def check_matrix_vs_triplets(case, rec):
+    """kdtree with max_returns reports each sequence's closest neighbours only (not a symmetric list; ties may fall
+    either way), so the oracle for the matrix forms is the triplet output of the very same call."""
+    seqs, k, m = case["seqs"], case["k"], case["max_returns"]
+    cd = "hamming" if case.get("hamming") else None
+    t = trip(call("kdtree", pyrepseq.kdtree, list(seqs), max_edits=k, max_returns=m, custom_distance=cd))
+    tset = set((a, b) for a, b, _ in t)
+    asym = any((b, a) not in tset for a, b in tset)
+    rec.note(case, asym, ["asymmetric" if asym else "symmetric", f"max_returns={m}"])
+    want = np.zeros((len(seqs), len(seqs)))
+    for q, r, d in t:
+        want[r, q] = d
+    for ot in ("coo_matrix", "ndarray"):
+        got = call("kdtree", pyrepseq.kdtree, list(seqs), max_edits=k, max_returns=m, custom_distance=cd, output_type=ot)
+        if ot == "coo_matrix":
+            coo = got.tocoo()
+            coords = list(zip(coo.row.tolist(), coo.col.tolist()))
+            if len(coords) != len(set(coords)):
+                raise Violation("matrix-duplicate-entry", f"max_returns={m}: repeated coordinates in the COO matrix")
+            if sorted((int(c), int(r)) for r, c in coords) != sorted(tset):
+                raise Violation("matrix-entries", f"max_returns={m}: stored coordinates differ from the triplets of the same call")
+            got = got.toarray()
+        if not np.array_equal(np.asarray(got, dtype=float), want):
+            bad = np.argwhere(np.asarray(got, dtype=float) != want)[:5].tolist()
+            raise Violation("matrix-content", f"kdtree max_returns={m} output={ot}: differs from the triplets of the same call at {bad}")
+
+
+@st.composite
+def matrix_case(draw, tier="quick"):
+    alpha = draw(st.sampled_from(["AC", "ACD", G.AA]))
+    seqs = draw(G.clonal_family(alpha=alpha, max_size=25, founder_len=(3, 9), max_edits=2))
+    case = {"seqs": seqs, "k": draw(st.sampled_from([1, 2])), "max_returns": draw(st.sampled_from([1, 1, 2, 3]))}
+    if draw(st.integers(0, 3)) == 0:
+        case["hamming"] = True
+    return case
+
+
 # ---------------------------------------------------------------------------
 # invalid arguments
 # ---------------------------------------------------------------------------
@@ -156,6 +193,9 @@ BAD_ARGS = {
     "n_cpu=0": dict(n_cpu=0), "n_cpu=-2": dict(n_cpu=-2), "n_cpu=1.0": dict(n_cpu=1.0), "n_cpu=None": dict(n_cpu=None),
     "output_type=dense": dict(output_type="dense"), "output_type=None": dict(output_type=None),
     "output_type=Triplets": dict(output_type="Triplets"), "output_type=''": dict(output_type=""),
+    "output_type=triplet": dict(output_type="triplet"), "output_type=matrix": dict(output_type="matrix"),
+    "output_type=array": dict(output_type="array"), "output_type=coo": dict(output_type="coo"),
+    "output_type=csr_matrix": dict(output_type="csr_matrix"), "output_type=0": dict(output_type=0),
 }
 
 
@@ -186,6 +226,7 @@ def enum_invalid(tier):
 
 SUBS = [
     Sub("formats_containers", check, strategy=lambda tier: search_case(tier), budget=(4000, 40000)),
+    Sub("matrix_vs_triplets", check_matrix_vs_triplets, strategy=lambda tier: matrix_case(tier), budget=(600, 6000)),
     Sub("invalid_enum", check_invalid, enum=enum_invalid),
     Sub("invalid_random", check_invalid, strategy=lambda tier: invalid_case(tier), budget=(300, 2000)),
 ]
